@@ -165,6 +165,61 @@ struct QsHarness : HarnessBase {
 	}
 };
 
+// Liveness under churn: "if all online agents keep reporting quiescent states and the registering agent keeps calling
+// run(), every registered callback is eventually invoked" also holds when that agent keeps REGISTERING new barriers (the
+// fair rounds of the state predicate above never register anything, so an older barrier that is only ever overtaken by
+// younger ones fires there in the end).  Deterministic script, 1-3 agents, every choice of the registering agent and of
+// which other agents go offline/online in between: one new barrier per round, each round = every online agent passes a
+// quiescent state, the registrar registers, every agent calls run().  A barrier must fire within 6 rounds of its
+// registration (the implementation needs 2-3); none may fire early or twice (same oracle as the BFS harness).
+struct ChurnNode : frg::qs_node { int idx; };
+static int g_churn_fired[64]; static unsigned g_churn_need[64]; static int g_churn_running = -1, g_churn_registrar = 0;
+static void churn_cb(frg::qs_node *qn) {
+	ChurnNode *n = static_cast<ChurnNode *>(qn);
+	if(g_churn_running != g_churn_registrar) note("C11", "qs:callback-outside-run", "a callback was invoked outside run() of the registering agent");
+	if(g_churn_fired[n->idx]++) note("C11", "qs:callback-twice", "a callback was invoked twice");
+	if(g_churn_need[n->idx]) note("C11", "qs:callback-before-grace-period", "a callback fired although an agent that was online at registration has not been inside quiescent_state() or offline since");
+}
+static InstResult churn() {
+	InstResult r; r.name = "qs-churn"; r.complete = true; r.fixpoint = true;
+	const int ROUNDS = 16, LIMIT = 6;
+	for(int na = 1; na <= 3; na++) for(int reg = 0; reg < na; reg++) for(int flap = 0; flap < (na > 1 ? 3 : 1); flap++) {
+		std::string h = std::to_string(na) + " agent(s), registrar a" + std::to_string(reg) + (flap == 1 ? ", another agent goes offline and online every third round" : flap == 2 ? ", another agent is offline during odd rounds" : "");
+		try {
+			pending().reset();
+			alignas(16) static unsigned char ds[sizeof(Domain)], as[3][sizeof(Agent)], ns[ROUNDS + 1][sizeof(ChurnNode)];
+			memset(ds, 0xA5, sizeof ds); memset(as, 0xA5, sizeof as); memset(ns, 0xA5, sizeof ns);
+			Domain *d = new(ds) Domain;
+			Agent *a[3]; bool on[3];
+			for(int i = 0; i < na; i++) { a[i] = new(as[i]) Agent(d); on[i] = true; }
+			int other = (reg + 1) % na;
+			memset(g_churn_fired, 0, sizeof g_churn_fired); memset(g_churn_need, 0, sizeof g_churn_need); g_churn_registrar = reg;
+			int born[ROUNDS + 1];
+			auto covered = [&](int x) { for(auto &m : g_churn_need) m &= ~(1u << x); };
+			for(int round = 0; round <= ROUNDS + LIMIT; round++) {
+				if(na > 1 && flap == 1 && round % 3 == 2) { if(on[other]) { a[other]->offline(); on[other] = false; covered(other); } else { a[other]->online(); on[other] = true; } }
+				if(na > 1 && flap == 2) { bool want = round % 2 == 0; if(on[other] && !want) { a[other]->offline(); on[other] = false; covered(other); } else if(!on[other] && want) { a[other]->online(); on[other] = true; } }
+				for(int i = 0; i < na; i++) if(on[i]) { a[i]->quiescent_state(); covered(i); }
+				if(round <= ROUNDS) {
+					ChurnNode *n = new(ns[round]) ChurnNode; n->idx = round; n->on_grace_period = &churn_cb; born[round] = round;
+					unsigned m = 0; for(int i = 0; i < na; i++) if(on[i]) m |= 1u << i;
+					g_churn_need[round] = m;
+					a[reg]->await_barrier(n);
+				}
+				for(int i = 0; i < na; i++) { g_churn_running = i; a[i]->run(); g_churn_running = -1; }
+				raise_pending();
+				for(int k = 0; k <= ROUNDS && k <= round; k++) if(!g_churn_fired[k] && round - born[k] >= LIMIT)
+					throw Violation{"C11", "qs:grace-period-lost-under-churn", "the barrier registered in round " + std::to_string(k) + " has not fired " + std::to_string(LIMIT) + " rounds later, although every online agent passed a quiescent state and the registrar called run() in every round (it keeps registering one new barrier per round)"};
+				r.evaluations++;
+			}
+			r.distinct++;
+		} catch(const Violation &v) { r.add_violation(v, h); }
+		catch(const Panic &p) { r.add_violation({"C11", "panic:qs-churn", p.text}, h); }
+	}
+	r.samples.push_back("1-3 agents x registrar x 3 presence patterns, 17 barriers registered one per round");
+	return r;
+}
+
 static std::vector<Instance> instances(const std::string &tier) {
 	bool th = tier == "thorough";
 	std::vector<Instance> v;
@@ -181,6 +236,10 @@ static std::vector<Instance> instances(const std::string &tier) {
 	// fired nodes handed back to await_barrier() unchanged
 	{ BfsOptions o; o.max_depth = th ? 14 : 12; v.push_back(bfs_instance<QsHarness>("qs-seq-A1-N3-reuse-D" + std::to_string(o.max_depth), o, 1, 3, true)); }
 	{ BfsOptions o; o.max_depth = th ? 12 : 10; v.push_back(bfs_instance<QsHarness>("qs-seq-A2-N2-reuse-D" + std::to_string(o.max_depth), o, 2, 2, true)); }
+	Instance c; c.name = "qs-churn";
+	c.run = [](const std::vector<CrashInfo> &) { return churn(); };
+	c.replay = [](const std::string &) { InstResult r = churn(); for(auto &v : r.violations) printf("REPLAY-VIOLATION property=%s sig=%s: %s [%s]\n", v.prop.c_str(), v.sig.c_str(), v.msg.c_str(), v.history.c_str()); return (int)r.violations.size(); };
+	v.push_back(c);
 	return v;
 }
 int main(int argc, char **argv) { return harness_main(argc, argv, instances); }
